@@ -485,4 +485,15 @@ def setdefault (d : List ((Int × Int) × Int)) (key : Int × Int) : List ((Int 
   | some kv => (d, kv.2)
   | none => (d ++ [(key, (d.length : Int))], (d.length : Int))
 
+/-! ### vocabulary of the translated `ADD.update` / `construct_chain` (`GenD`) -/
+
+/-- `a[tuple(zip(*loc))] += v`: every listed entry becomes ORIGINAL entry `+ v` (NumPy reads all entries first; an entry listed twice is incremented once) -/
+def fancyAdd3 [Inhabited β] (vadd : β → β → β) (a : List (List (List β))) (loc : List (Int × Int × Int)) (v : β) : List (List (List β)) :=
+  loc.foldl (fun acc e => set3 acc e.1 e.2.1 e.2.2 (vadd (get3 a e.1 e.2.1 e.2.2) v)) a
+/-- `a[tuple(zip(*loc))] = [v, …, v]` -/
+def fancySet3 (a : List (List (List β))) (loc : List (Int × Int × Int)) (v : β) : List (List (List β)) :=
+  loc.foldl (fun acc e => set3 acc e.1 e.2.1 e.2.2 v) a
+/-- a 2-D nested list `(r, c)` filled with `x` (`np.ones((r, c), dtype=int)` for `x = 1`) -/
+def full2L (r c : Int) (x : β) : List (List β) := List.replicate r.toNat (List.replicate c.toNat x)
+
 end Np
